@@ -88,7 +88,8 @@ def cases(rng, tier):
     yield from cross_cases(rng, tier)
     n = 250 if tier == "quick" else 4000
     for i in range(n):
-        yield rvgen.sim_case(rng, "single", opts={"wide": i % 3 == 0}, trace=25, run=300, dprob=0.0, iprob=0.0)
+        c_ = rvgen.sim_case(rng, "single", opts={"wide": i % 3 == 0}, trace=25, run=300, dprob=0.0, iprob=0.0)
+        yield rvgen.as_text_case(c_) if i % 4 == 3 else c_        # every fourth program goes through the loader
     for i in range(n // 2):
         yield rvgen.chain_case(rng, "single", trace=16, run=100)
     for i in range(n // 6):
